@@ -60,6 +60,8 @@ def cases(rng, tier):
         yield {"tag": "roundtrip", "expr": g_expr(rng, rng.randint(1, 4), "I")}
     for _ in range(300 if tier == "quick" else 4000):
         yield {"tag": "roundtrip-twins", "expr": g_twins(rng)}
+    for _ in range(400 if tier == "quick" else 6000):
+        yield {"tag": "roundtrip-quoted", "expr": g_expr(rng, rng.randint(1, 3), "I")}
 
 
 VARS = ["x", "y", "<state>y", "<t>", "<dt>", "<p>k_1", "<cond>c", "n"]
@@ -91,6 +93,9 @@ def g_expr(rng, d, ty):
             return ["cmp", rng.choice(["<", "<=", "==", "!=", ">", ">="]), g_expr(rng, d - 1, "I"), g_expr(rng, d - 1, "I")]
         if r < 0.65:
             return ["not", g_expr(rng, d - 1, "B")]
+        if r < 0.78 and r >= 0.72:
+            # a conditional whose branches are truth values (the else branch may be a bare `or` / `and` / `not`)
+            return ["if", g_expr(rng, d - 1, "B"), g_expr(rng, d - 1, "B"), g_expr(rng, d - 1, "B")]
         if r < 0.72:
             # two truth values compared for (in)equality: a comparison as the operand of a comparison
             return ["cmp", rng.choice(["==", "!="]), g_expr(rng, d - 1, "B"), g_expr(rng, d - 1, "B")]
@@ -197,10 +202,30 @@ def impl(case):
     from dagrt.expression import parse
     e = ser.from_js(case["expr"])
     s = str(e)
+    text = s
+    if case.get("tag") == "roundtrip-quoted":
+        # the same printed form with EVERY name written between backticks (names glued to operators and to each
+        # other exactly as the printer glues them): it must denote the same expression
+        names = {}
+
+        def ph(n):
+            return names.setdefault(n, "QZ%dZQ" % len(names))
+
+        def ren(j):
+            if isinstance(j, list) and j:
+                if j[0] == "v" and len(j) == 2:
+                    return ["v", ph(j[1])]
+                if j[0] == "call":
+                    return ["call", ph(j[1]), [ren(a) for a in j[2]], [[k, ren(v)] for k, v in j[3]]]
+                return [ren(x) if isinstance(x, list) else x for x in j]
+            return j
+        text = str(ser.from_js(ren(case["expr"])))
+        for n, p_ in names.items():
+            text = text.replace(p_, "`" + n + "`")
     try:
-        e2 = parse(s)
+        e2 = parse(text)
     except Exception as ex:
-        return {"printed": s, "error": type(ex).__name__ + ": " + str(ex)[:80]}
+        return {"printed": s, "error": type(ex).__name__ + ": " + str(ex)[:80] + (" (written as " + text + ")" if text != s else "")}
     try:
         j2 = ser.to_js(e2)
     except ser.Unsupported as ex:
